@@ -95,7 +95,7 @@ def file_route(rec, idx, n, workdir):
     d = os.path.join(workdir, "c%d_%d" % (os.getpid(), idx))
     os.makedirs(d, exist_ok=True)
     ents = [(absstate.canon(e["t"]), math.log(e["m"]) - 2.5, idx + j) for j, e in enumerate(rec["trees"])]
-    chains = [(0, ents[:1]), (1, ents[1:])] if len(ents) > 1 else [(0, ents)]
+    chains = ([(1, ents[1:]), (0, ents[:1])] if idx % 2 else [(0, ents[:1]), (1, ents[1:])]) if len(ents) > 1 else [(0, ents)]
     tp = os.path.join(d, "trace.pkl.gz")
     outputs.write_trace_file(tp, chains, data, ["s0"])
     try:
